@@ -282,6 +282,32 @@ func init() {
 			fmt.Fprintf(&e.out, "def syncStatusSucceededCond : String := %s\n\n", leanStr(c17CondGuarding(fd, "SetReservationSucceeded")))
 		})
 		withFn("apis/extension", "", "IsReservationAllocateOnce", func(fd *ast.FuncDecl) { strList("isAllocateOnceReturns", c17Returns(fd)) })
+		// the arbitrator's Create handler: its top-level statements up to AddPodMigrationJob — every early return with its
+		// condition (a finished job must not be taken in again after a restart: fix 2a5d178)
+		withFn(d+"/arbitrator", "arbitrationHandler", "Create", func(fd *ast.FuncDecl) {
+			var out []string
+			for _, st := range fd.Body.List {
+				switch v := st.(type) {
+				case *ast.IfStmt:
+					returns := false
+					if n := len(v.Body.List); n > 0 {
+						_, returns = v.Body.List[n-1].(*ast.ReturnStmt)
+					}
+					if returns && v.Else == nil {
+						out = append(out, "return if "+c17Src(v.Cond))
+					} else {
+						out = append(out, "if "+c17Src(v.Cond))
+					}
+				default:
+					for _, c := range c17Calls(&ast.FuncDecl{Body: &ast.BlockStmt{List: []ast.Stmt{st}}}) {
+						if c == "AddPodMigrationJob" {
+							out = append(out, c)
+						}
+					}
+				}
+			}
+			strList("createHandlerSteps", out)
+		})
 		emit := func(lean, fn string, calls map[string]bool, stop string) {
 			t := &c17Tracer{calls: calls, roots: c17Set("job", "cond"), stop: stop}
 			fd := e.funcDecl(d, "Reconciler", fn)
